@@ -496,6 +496,48 @@ def lawSymm (m : List (List Bool)) (n : Nat) : Option (Nat × Nat) :=
 def lawTrans (m : List (List Bool)) (n : Nat) : Option (Nat × Nat × Nat) :=
   (triplesUpTo n).find? (fun t => matGet m t.1 t.2.1 && matGet m t.2.1 t.2.2 && !matGet m t.1 t.2.2)
 
+def symmPred (m : List (List Bool)) (p : Nat × Nat) : Bool := matGet m p.1 p.2 != matGet m p.2 p.1
+
+def transPred (m : List (List Bool)) (t : Nat × Nat × Nat) : Bool :=
+  matGet m t.1 t.2.1 && matGet m t.2.1 t.2.2 && !matGet m t.1 t.2.2
+
+/-- every violation (the driver prints the count and the first few) -/
+def lawSymmAll (m : List (List Bool)) (n : Nat) : List (Nat × Nat) := (pairsUpTo n).filter (symmPred m)
+def lawTransAll (m : List (List Bool)) (n : Nat) : List (Nat × Nat × Nat) := (triplesUpTo n).filter (transPred m)
+
+/-- What is observed for an ordered pair `(a, b)`: `a == b`, `a != b`, and what the one-entry map
+    `(a: 1)` / list `(a,)` do when probed or extended with `b`. -/
+structure PairObs where
+  eq : Bool
+  ne : Bool
+  getFound : Bool          -- `map-get((a: 1), b)` is not null
+  hasKey : Bool            -- `map-has-key((a: 1), b)`
+  removed : Bool           -- `map-remove((a: 1), b)` is empty
+  mergeLen : Nat           -- `length(map-merge((a: 1), (b: 2)))`
+  dupRejected : Bool       -- the literal `(a: 1, b: 2)` is an error
+  index : Option Nat       -- `index((a,), b)`, 0-based
+  deriving DecidableEq, Repr
+
+def numV (n : Nat) : Value := .num (.fin (n : Rat)) .none
+
+/-- the model's observation -/
+def pairObs (sw : Sw) (a b : Value) : PairObs :=
+  let m := VPairs.cons a (numV 1) .nil
+  { eq := veq sw a b, ne := neOp sw a b, getFound := (get sw m b).isSome, hasKey := contains sw m b,
+    removed := (remove sw m b).length == 0, mergeLen := (merge sw m (.cons b (numV 2) .nil)).length,
+    dupRejected := (literal sw [(a, numV 1), (b, numV 2)]).isNone, index := indexOf sw (.cons a .nil) b }
+
+/-- P̂ for one ordered pair: every keyed operation agrees with `==`, `!=` is its negation.
+    Returns the names of the clauses that fail. -/
+def pairAgrees (o : PairObs) : List String :=
+  (if o.ne != !o.eq then ["ne"] else []) ++
+  (if o.getFound != o.eq then ["map-get"] else []) ++
+  (if o.hasKey != o.eq then ["map-has-key"] else []) ++
+  (if o.removed != o.eq then ["map-remove"] else []) ++
+  (if o.mergeLen != (if o.eq then 1 else 2) then ["map-merge"] else []) ++
+  (if o.dupRejected != o.eq then ["map-literal"] else []) ++
+  (if o.index != (if o.eq then some 0 else none) then ["index"] else [])
+
 /-! ### driver: value encoding
 
   prefix tokens:  `N` | `T` | `F` | `n <rat> <unit>` | `s <0|1> <hex>` | `c <rat> <rat> <rat> <rat>`
@@ -743,6 +785,36 @@ def handle : List String → String
       let t := match lawTrans m n with | none => "trans:ok" | some (i, j, k) => s!"trans:{i},{j},{k}"
       s!"ok {r} {s} {t}"
     | none => "bad-op"
+  -- lawsall <n> <matrix>: every symmetry / transitivity violation (count, then at most 400 of them)
+  | ["lawsall", n, mat] =>
+    match n.toNat? with
+    | some n =>
+      let m := parseMatrix mat
+      let ss := lawSymmAll m n
+      let ts := lawTransAll m n
+      let sTxt := ";".intercalate ((ss.take 400).map fun (i, j) => s!"{i},{j}")
+      let tTxt := ";".intercalate ((ts.take 400).map fun (i, j, k) => s!"{i},{j},{k}")
+      s!"ok symm {ss.length} [{sTxt}] trans {ts.length} [{tTxt}]"
+    | none => "bad-op"
+  -- pairobs <sw> A B → ok <eq> <ne> <get> <has> <removed> <mergeLen> <dup> <index> <agrees:-|names>
+  | "pairobs" :: sw :: r =>
+    match parseSw? sw, parseValues 2 r with
+    | some sw, some [a, b] =>
+      let o := pairObs sw a b
+      let bad := pairAgrees o
+      s!"ok {boolStr o.eq} {boolStr o.ne} {boolStr o.getFound} {boolStr o.hasKey} {boolStr o.removed} {o.mergeLen} {boolStr o.dupRejected} {optNatStr o.index} {if bad.isEmpty then "-" else ",".intercalate bad}"
+    | _, _ => "bad-op"
+  -- pairlaw <eq> <ne> <get> <has> <removed> <mergeLen> <dup> <index|none>: P̂ on an implementation's answers
+  | ["pairlaw", e, n, g, h, r, ml, d, ix] =>
+    match parseBool? e, parseBool? n, parseBool? g, parseBool? h, parseBool? r, ml.toNat?, parseBool? d with
+    | some e, some n, some g, some h, some r, some ml, some d =>
+      let ix := if ix == "none" then some none else ix.toNat?.map some
+      match ix with
+      | some ix =>
+        let bad := pairAgrees ⟨e, n, g, h, r, ml, d, ix⟩
+        if bad.isEmpty then "ok holds" else "ok fails " ++ ",".intercalate bad
+      | none => "bad-op"
+    | _, _, _, _, _, _, _ => "bad-op"
   -- first <bits> → ok <position of the first 1 | none>   (P̂ of `index`/`map-get` against a row of `==` answers)
   | ["first", bits] => "ok " ++ optNatStr (firstTrue (parseBits bits))
   | _ => "bad-op"
